@@ -48,6 +48,16 @@ CHECKS = {
     ref="DESIGN.md §3 C18",
     note="Trusted: reference model's read order (validated on the unchanged tree). Macro-internal names of documented expansions (PrefixedArray count/items) count as declared names. Failure-absorbing constructs excluded from the truncation clause.",
     technique="property-based testing with exhaustive truncation offsets per case; oracle = failing-member path predicted by a reference model"),
+ "C10": dict(
+    text="Field layouts partitioning 8..96 bits (BitsInteger 1..32 bits signed/swapped, Bit/Nibble/Octet, Flag, Padding, Array, nested Struct, Bytewise(BytesInteger) islands) are realised three ways - Bitwise(Struct) statically sized (asserted Transformed), BitStruct, and with every width taken from keyword parameters (asserted Restreamed) - and compared with big-integer concatenation of two's-complement patterns for build and parse. All 128 compositions of 8 bits x all 256 inputs x signed/unsigned; all (quick: strided) compositions of 16 bits x probe inputs; thorough: 16 layouts x all 65536 inputs; random layouts/values beyond.",
+    ref="DESIGN.md §3 C10",
+    note="Widths sum to a multiple of 8 and byte-swapping only for multiples of 8 (documented preconditions).",
+    technique="exhaustive enumeration of small layouts/values + Hypothesis random layouts; oracle = independent big-integer arithmetic, two implementations differential"),
+ "C12": dict(
+    text="Every '<-->' law in core.py docstrings and docs/*.rst and the documented operator spellings are instantiated (246 instances: widths 1..16 x signed x swapped, all alias names, Optional/If/Padding/PrefixedArray/BitStruct/AlignedStruct/Enum/FlagsEnum/Hex/HexDump, x[n], a+b, a>>b, name/x, x*doc, Bitwise/Bytewise vs Restreamed). All sides of an instance must parse each input to equal values with equal stream advance or all reject, and build each value to identical bytes or all reject; inputs are all byte strings of length 0..2 for layouts <= 2 bytes (quick: 2-byte strided), boundary strings of layout length -1/0/+1/+2 beyond, and a table of boundary/out-of-range/ill-typed values, plus random ones.",
+    ref="DESIGN.md §3 C12",
+    note="'Reject' = any exception. Objects that are integers only via __index__ are not generated. Restreamed docstring argument order slip noted in DESIGN.md.",
+    technique="bounded-exhaustive enumeration of law instances x inputs + Hypothesis; oracle = pairwise extensional equality (differential between equivalent constructs)"),
 }
 
 NOT_APPLICABLE = [dict(property_id=p, reason="check not yet built in this revision of /verif (planned, see DESIGN.md §3)") for p in ALL if p not in CHECKS]
